@@ -252,6 +252,69 @@ def keyorder_check():
             n_cases += 1
             if not np.array_equal(received[0], np.array([[base[k] for k in order]])):
                 bad(f'input-no-names/{kind}', f"{kind} wrapper without feature names, keys {list(order)}: received {received}")
+        # without feature names, batch: every row is read in ITS OWN key order, exactly as a one-at-a-time call reads it
+        for nrows in (2, 3):
+            for orders in itertools.product(perms, repeat=nrows):
+                received = []
+
+                def stub(X, received=received):
+                    arr = X.detach().cpu().numpy() if hasattr(X, 'detach') else np.asarray(X)
+                    received.append(np.array(arr, dtype=float))
+                    res = (arr * np.array([1.0, 10.0, 100.0])).sum(axis=1)
+                    if hasattr(X, 'detach'):
+                        import torch
+                        return torch.tensor(res)
+                    return res
+                w = SklearnWrapper(stub) if kind == 'sklearn' else TorchWrapper(stub)
+                xs = [{k: rows_base[i][k] for k in orders[i]} for i in range(nrows)]
+                got = w([dict(x) for x in xs])
+                n_cases += 1
+                want_arr = np.array([[rows_base[i][k] for k in orders[i]] for i in range(nrows)])
+                if len(received) != 1 or not np.array_equal(received[0], want_arr):
+                    bad(f'batch-input-no-names/{kind}', f"{kind} wrapper without feature names, batch rows keyed in orders "
+                                                        f"{[list(o) for o in orders]}: the prediction function received "
+                                                        f"{received[0].tolist() if received else None}, expected every row in "
+                                                        f"its own key order {want_arr.tolist()} (as a one-at-a-time call reads it)")
+                single = [w(dict(x)) for x in xs]
+                if not all(same_dict(g, s_) for g, s_ in zip(got, single)):
+                    bad(f'batch-vs-single-no-names/{kind}', f"{kind} wrapper without feature names: batch result {got} differs "
+                                                            f"from one-at-a-time {single} for rows {xs}")
+            outcomes.add((kind, 'batch-orders-no-names', nrows))
+        # call histories on ONE wrapper instance: the result of a call must not depend on earlier calls (value types of
+        # earlier inputs: ints then fractions, short then long strings, bools, mixed)
+        inputs = [{'a': 1, 'b': 2}, {'a': 0.5, 'b': 2.25}, {'a': True, 'b': False}, {'a': 10 ** 12, 'b': -3},
+                  {'a': np.float32(1.5), 'b': np.int8(7)}, {'a': 1e-9, 'b': 2e9}, {'b': 4.5, 'a': 3}, {'a': 7, 'b': 0.125, 'c': 9.5}]
+        for use_names in (False, True):
+            for first in inputs:
+                for second in inputs:
+                    for third in (None, inputs[1]):
+                        rec_hist, rec_fresh = [], []
+
+                        def mk(received):
+                            def stub(X):
+                                arr = X.detach().cpu().numpy() if hasattr(X, 'detach') else np.asarray(X)
+                                received.append(np.array(arr, dtype=float))
+                                res = (arr * np.array([1.0, 10.0, 100.0])[:arr.shape[1]]).sum(axis=1)
+                                if hasattr(X, 'detach'):
+                                    import torch
+                                    return torch.tensor(res)
+                                return res
+                            return stub
+                        kw = {'feature_names': ['a', 'b']} if use_names else {}
+                        cls = SklearnWrapper if kind == 'sklearn' else TorchWrapper
+                        w_hist, calls = cls(mk(rec_hist), **kw), [first, second] + ([third] if third else [])
+                        for x in calls:
+                            got = w_hist(dict(x))
+                        fresh = cls(mk(rec_fresh), **kw)(dict(calls[-1]))
+                        n_cases += 1
+                        tol = 1e-6 if kind == 'torch' else 0.0
+                        if not (rec_hist[-1].shape == rec_fresh[-1].shape and np.allclose(rec_hist[-1], rec_fresh[-1], rtol=tol, atol=0)) \
+                                or not close_dict(got, fresh, 1e-6 if kind == 'torch' else 1e-12):
+                            bad(f'depends-on-earlier-calls/{kind}', f"{kind} wrapper ({'with' if use_names else 'without'} feature "
+                                                                    f"names) called with {calls} in turn: the last call handed "
+                                                                    f"{rec_hist[-1].tolist()} to the model and returned {got}; a fresh "
+                                                                    f"wrapper hands over {rec_fresh[-1].tolist()} and returns {fresh}")
+            outcomes.add((kind, 'call-histories', use_names))
     return n_cases, outcomes
 
 
